@@ -42,6 +42,16 @@ def gen(rng, n, tier="quick"):
             for _ in range(rng.choice([0, 1, 1, 1, 2])):
                 shape["files"][rng.choice(L.KINDS)] += 1
         cases.append({"fam": NAME, "fn": "cli_sync", "args": [shape], "tags": ["cli-shape"]})
+    # the shapes of recorded findings that the regular draws reach only rarely (the rewrite hitting a same-named class in a
+    # statement that opens no scope; _default_options raising on a forward-declared function target): one scenario each per
+    # 12 regular ones, from a generator of their own (drawn last, so the cases above do not depend on them)
+    import random
+    krng = random.Random(rng.random())
+    for j in range(max(2, nscn // 12 * 2)):
+        scn = L.gen_known_shape(krng, L.KNOWN_SHAPES[j % len(L.KNOWN_SHAPES)], runs=2)
+        for req, got, tags in _run_scenario(scn, None):
+            cases.append({"fam": NAME, "fn": "conform", "args": [req], "impl": got, "tags": tags + ["recorded-finding-shape"],
+                          "scenario": scn, "fault": None})
     return cases
 
 
@@ -59,6 +69,11 @@ def _run_scenario(scn, fault):
                 fo = L.Fault(fault["target"], fault["op_index"], fault["k"])
             L.run_api(scn, paths, rec, fo)
             for c in rec.calls:
+                if c["emit"] is None and c["parse"] == ("ok",) and c["found"] and c["result"][0] == "err":
+                    # the expression emit_func(ir, **_default_options(node, ...)()) raised while its arguments were being
+                    # evaluated (get_function_type on the found node), before the emitter was entered: that is the answer of
+                    # the model's `emit_k k ir (opts_of orig search k)`
+                    c = dict(c, emit=("err", c["result"][1]))
                 an = [_oc(c["emit"]), _oc(c["parse"]), bool(c["found"]), bool(c["type_ok"]), bool(c["cmp"]), bool(c["replaced"]),
                       _oc(c["render"], True), _oc(c["render"], True)]
                 rel = os.path.basename(c["file"])
@@ -72,7 +87,9 @@ def _run_scenario(scn, fault):
                 got = dumps([opt(c["new"]), opt(c.get("tmp_new")),
                              [Sym("ok"), bool(res[1])] if res[0] == "ok" else [Sym("err"), Sym(res[1])],
                              [l.replace(c["file"], rel) for l in c["stdout"].split("\n") if l]])
-                branch = ("create" if c["old"] is None else "append" if not c["found"] else "same" if c["cmp"] else
+                branch = ("create" if c["old"] is None else "append" if not c["found"] else
+                          "options-raise" if (c["emit"] or ("ok",))[0] == "err" and c["result"][0] == "err" and c["render"] is None else
+                          "same" if c["cmp"] else
                           "replace" if c["replaced"] else "found-not-replaced")
                 out.append((req, got, ["run%d" % run, "kind:" + c["kind"], "branch:" + branch,
                                        "fault:" + ("%s-%s" % (fo.fired_op[0], fo.fired_op[1]) if fired else "none")]))
